@@ -91,7 +91,7 @@ func c04Input(r *core.Rand) inputs.Input {
 			in.P = []int{0, 10, 3000, 3100}[r.Intn(4)]
 		}
 	case v < 80:
-		fams := []string{"png", "gif", "pdf", "zip", "docx", "docx", "ole", "elf", "gzip", "random", "tar", "tar", "sample", "sample", "sample"}
+		fams := []string{"png", "gif", "pdf", "zip", "docx", "docx", "ole", "elf", "gzip", "random", "tar", "tar", "sample", "sample", "sample", "tar_poly", "tar_poly", "overlay"}
 		in.Fam = fams[r.Intn(len(fams))]
 		in.P = []int{10, 100, 2900, 3100, 5000}[r.Intn(5)]
 		if in.N > 60000 && in.Fam != "random" {
@@ -102,6 +102,12 @@ func c04Input(r *core.Rand) inputs.Input {
 		}
 		if in.Fam == "tar" {
 			in.V = r.Intn(4)
+		}
+		if in.Fam == "tar_poly" {
+			in.V, in.P, in.N = r.Intn(1<<12), r.Range(2, 12), r.Range(0, 2000)
+		}
+		if in.Fam == "overlay" {
+			in.V, in.P, in.N = r.Intn(1<<12), r.Intn(1<<12), r.Range(1, 16)
 		}
 	case v < 96:
 		// the repository's own sample of some format (every supported format has one),
